@@ -15,8 +15,8 @@ func init() {
 			"R2 the multiplication, rotation, mixing and finalisation constants are those of MurmurHash3 x64-128; R3 the block readers (unsafe and appengine variants) read two little-endian int64 at n*16; R4 the composite routing key is, per component in partition-key order, [2-byte big-endian length][encoding][0x00], the single-column key is the bare encoding, each component is marshalled with its own type and value index, and the returned key is storage allocated by that call; R5 the Murmur3 partitioner hashes with Murmur3H1 and tokens order numerically; the ordered partitioner uses the key bytes.",
 		NotDecided: "hash values for all inputs (numerical); MD5/absolute-value handling of the random partitioner beyond its shape; token-string parsing and ordering for all strings.",
 		Rules: []*Rule{
-			{ID: "C09.R1", Floor: 17, Doc: "tail bytes sign-extended through block(); XOR folding; tail table (index, shift, word)", Run: c09r1},
-			{ID: "C09.R2", Floor: 12, Doc: "MurmurHash3 x64-128 constants, rotations and finaliser", Run: c09r2},
+			{ID: "C09.R1", Floor: 16, Doc: "for each tail length 0..15 the value computed after the block loop (signed tail bytes XOR-folded, mixed, length folded, fmix) equals the reference term", Run: c09r1},
+			{ID: "C09.R2", Floor: 6, Doc: "seed 0, block loop over all 16-byte blocks, per-block transformer of h1/h2 equals MurmurHash3 x64-128 (constants, rotations)", Run: c09r2},
 			{ID: "C09.R3", Floor: 2, Doc: "getBlock reads two little-endian int64 at n*16", Run: c09r3},
 			{ID: "C09.R4", Floor: 6, Doc: "routing key framing, component pairing and fresh storage", Run: c09r4},
 			{ID: "C09.R5", Floor: 14, Doc: "partitioners: Murmur3 -> Murmur3H1, numeric order; ordered -> key bytes", Run: c09r5},
@@ -28,237 +28,208 @@ func init() {
 
 func murmurFunc(p *Program, name string) *FuncInfo { return p.Func("murmur." + name) }
 
+// ---- MurmurHash3 x64-128 (Cassandra variant: signed tail bytes), as terms -------------------------------------
+
+const (
+	mmC1    = 0x87c37b91114253d5
+	mmC2    = 0x4cf5ad432745937f
+	mmFmix1 = 0xff51afd7ed558ccd
+	mmFmix2 = 0xc4ceb9fe1a85ec53
+)
+
+func mmMixK1(k *term) *term {
+	return mk("mul", mk("rotl", mk("mul", k, tConst(mmC1)), tConst(31)), tConst(mmC2))
+}
+func mmMixK2(k *term) *term {
+	return mk("mul", mk("rotl", mk("mul", k, tConst(mmC2)), tConst(33)), tConst(mmC1))
+}
+func mmFmix(n *term) *term {
+	n = mk("xor", n, mk("lshr", n, tConst(33)))
+	n = mk("mul", n, tConst(mmFmix1))
+	n = mk("xor", n, mk("lshr", n, tConst(33)))
+	n = mk("mul", n, tConst(mmFmix2))
+	n = mk("xor", n, mk("lshr", n, tConst(33)))
+	return n
+}
+
+// mmTailFinal: the reference value of the hash after the block loop left (h1, h2), for a tail of t bytes at
+// offset off of data and total length L. signedBytes selects Cassandra's sign extension of the tail bytes.
+func mmTailFinal(h1, h2, off, L *term, t int, signedBytes bool) *term {
+	byteAt := func(i int) *term {
+		b := tSym("byte:data[" + mk("add", off, tConst(uint64(i))).String() + "]")
+		if signedBytes {
+			return mkExt("sext", 8, b)
+		}
+		return b
+	}
+	if t > 8 {
+		k2 := tConst(0)
+		for i := t - 1; i >= 8; i-- {
+			k2 = mk("xor", k2, mk("shl", byteAt(i), tConst(uint64(8*(i-8)))))
+		}
+		h2 = mk("xor", h2, mmMixK2(k2))
+	}
+	if t > 0 {
+		k1 := tConst(0)
+		n := t
+		if n > 8 {
+			n = 8
+		}
+		for i := n - 1; i >= 0; i-- {
+			k1 = mk("xor", k1, mk("shl", byteAt(i), tConst(uint64(8*i))))
+		}
+		h1 = mk("xor", h1, mmMixK1(k1))
+	}
+	h1 = mk("xor", h1, L)
+	h2 = mk("xor", h2, L)
+	h1 = mk("add", h1, h2)
+	h2 = mk("add", h2, h1)
+	h1 = mmFmix(h1)
+	h2 = mmFmix(h2)
+	return mk("add", h1, h2)
+}
+
+// murmurRun interprets Murmur3H1 for inputs of length L with L & 15 == t.
+type murmurRun struct {
+	se     *symEval
+	ret    *term
+	loop   *symLoop
+	h1, h2 string // names of the two state variables
+	ctr    string
+	err    string
+}
+
+func runMurmur(p *Program, fi *FuncInfo, t int) *murmurRun {
+	se := newSymEval(p)
+	se.opaque["murmur.getBlock"] = true
+	se.attrs["L"] = map[uint64]uint64{15: uint64(t)}
+	mr := &murmurRun{se: se}
+	if fi.Decl.Type.Params == nil || len(fi.Decl.Type.Params.List) != 1 {
+		mr.err = "Murmur3H1 does not take exactly one parameter"
+		return mr
+	}
+	vals, ok := se.evalFunc(fi, []sval{{kind: 's', base: "data", off: tConst(0), slen: tSym("L")}})
+	if len(se.unsup) > 0 || !ok {
+		mr.err = strings.Join(se.unsup, "; ")
+		if mr.err == "" {
+			mr.err = "not interpretable"
+		}
+		return mr
+	}
+	if len(vals) != 1 || vals[0].kind != 'i' {
+		mr.err = "no integer result"
+		return mr
+	}
+	mr.ret = vals[0].t
+	if len(se.loops) != 1 {
+		mr.err = fmt.Sprintf("%d loops with a symbolic bound (expected the block loop only)", len(se.loops))
+		return mr
+	}
+	mr.loop = se.loops[0]
+	// roles: the counter is compared in the condition; a state variable's new value depends on its old one
+	for name, post := range mr.loop.post {
+		pre := mr.loop.pre[name]
+		if pre == nil || !strings.Contains(post.String(), pre.String()) {
+			continue
+		}
+		ps := post.String()
+		has0, has1 := strings.Contains(ps, "murmur.getBlock.0("), strings.Contains(ps, "murmur.getBlock.1(")
+		switch {
+		case !has0 && !has1:
+			if strings.Contains(mr.loop.cond, pre.String()) {
+				mr.ctr = name
+			}
+		case has0 && !has1:
+			mr.h1 = name
+		case has1:
+			mr.h2 = name
+		}
+	}
+	if mr.h1 == "" || mr.h2 == "" || mr.ctr == "" {
+		mr.err = fmt.Sprintf("block loop: cannot identify the counter and the two state words (counter=%q h1=%q h2=%q)", mr.ctr, mr.h1, mr.h2)
+	}
+	return mr
+}
+
+func shortTerm(t *term) string {
+	s := t.String()
+	if len(s) > 420 {
+		return s[:200] + " … " + s[len(s)-200:]
+	}
+	return s
+}
+
 func c09r1(p *Program, r *Report) {
-	blk := murmurFunc(p, "block")
-	h1 := murmurFunc(p, "Murmur3H1")
-	if blk == nil || h1 == nil {
-		r.Unresolved("murmur.block / murmur.Murmur3H1 not found")
+	fi := murmurFunc(p, "Murmur3H1")
+	if fi == nil {
+		r.Unresolved("murmur.Murmur3H1 not found")
 		return
 	}
-	binfo := blk.Pkg.TypesInfo
-	okBlock := false
-	if len(blk.Decl.Body.List) == 1 {
-		if rs, ok := blk.Decl.Body.List[0].(*ast.ReturnStmt); ok && len(rs.Results) == 1 {
-			// int64(int8(p))
-			if c, ok := ast.Unparen(rs.Results[0]).(*ast.CallExpr); ok && len(c.Args) == 1 && exprStr(c.Fun) == "int64" {
-				if c2, ok := ast.Unparen(c.Args[0]).(*ast.CallExpr); ok && len(c2.Args) == 1 && exprStr(c2.Fun) == "int8" {
-					okBlock = isIdentOf(binfo, c2.Args[0], paramObj(binfo, blk.Decl.Type, 0))
-				}
+	L := tSym("L")
+	off := mk("mul", &term{op: "sdiv", args: []*term{L, tConst(16)}}, tConst(16))
+	for t := 0; t <= 15; t++ {
+		mr := runMurmur(p, fi, t)
+		if mr.err != "" {
+			r.Unresolved("Murmur3H1 (tail of %d bytes): %s", t, mr.err)
+			return
+		}
+		h1, h2 := tSym(fmt.Sprintf("%s@0", mr.h1)), tSym(fmt.Sprintf("%s@0", mr.h2))
+		want := mmTailFinal(h1, h2, off, L, t, true)
+		got := mr.ret
+		why := ""
+		if got.String() != want.String() {
+			switch {
+			case t > 0 && got.String() == mmTailFinal(h1, h2, off, L, t, false).String():
+				why = "the tail bytes are folded without sign extension: inputs with a byte >= 0x80 in the last (length mod 16) bytes hash differently from Cassandra, which reads the tail as signed bytes"
+			case strings.Contains(got.String(), "or("):
+				why = fmt.Sprintf("for inputs whose length is %d mod 16 a tail word is assembled with | from sign-extended bytes: a byte >= 0x80 sets every higher bit of the word, which the reference's XOR folding does not (result `%s`)", t, shortTerm(got))
+			default:
+				why = fmt.Sprintf("for inputs whose length is %d mod 16 the result is `%s`; MurmurHash3 x64-128 with Cassandra's signed tail bytes gives `%s`", t, shortTerm(got), shortTerm(want))
 			}
 		}
-	}
-	r.Check(okBlock, blk.Decl, "murmur.block sign-extends the byte", "int64(int8(p))", "block() does not convert the byte through int8 before widening: bytes >= 0x80 hash differently from Cassandra (which uses signed bytes)")
-	info := h1.Pkg.TypesInfo
-	// every tail[...] load is an argument of block(); sign-extended values never OR-combined
-	var tailObj types.Object
-	ast.Inspect(h1.Decl.Body, func(x ast.Node) bool {
-		if as, ok := x.(*ast.AssignStmt); ok && len(as.Lhs) == 1 && len(as.Rhs) == 1 {
-			if sl, ok := ast.Unparen(as.Rhs[0]).(*ast.SliceExpr); ok && sl.High == nil && sl.Low != nil {
-				if id, ok := as.Lhs[0].(*ast.Ident); ok && tailObj == nil && strings.Contains(exprStr(sl.Low), "16") {
-					tailObj = info.Defs[id]
-				}
-			}
-		}
-		return true
-	})
-	if tailObj == nil {
-		r.Unresolved("Murmur3H1: tail slice not found")
-		return
-	}
-	nload := 0
-	ast.Inspect(h1.Decl.Body, func(x ast.Node) bool {
-		ix, ok := x.(*ast.IndexExpr)
-		if !ok || !isIdentOf(info, ix.X, tailObj) {
-			return true
-		}
-		nload++
-		c, isCall := p.Parent(ix).(*ast.CallExpr)
-		r.Check(isCall && isCallTo(info, c, "murmur.block"), ix, "Murmur3H1 tail byte "+exprStr(ix)+" goes through block()", "sign-extended", "a tail byte reaches the hash state without block()'s sign extension")
-		return true
-	})
-	if nload == 0 {
-		r.Unresolved("Murmur3H1 never indexes the tail")
-	}
-	ast.Inspect(h1.Decl.Body, func(x ast.Node) bool {
-		var op token.Token
-		var operands []ast.Expr
-		switch s := x.(type) {
-		case *ast.BinaryExpr:
-			op, operands = s.Op, []ast.Expr{s.X, s.Y}
-		case *ast.AssignStmt:
-			if s.Tok == token.OR_ASSIGN {
-				op, operands = token.OR, s.Rhs
-			}
-		}
-		if op != token.OR {
-			return true
-		}
-		for _, o := range operands {
-			has := false
-			ast.Inspect(o, func(m ast.Node) bool {
-				if c, ok := m.(*ast.CallExpr); ok && isCallTo(info, c, "murmur.block") {
-					has = true
-				}
-				return true
-			})
-			if has {
-				r.Bad(x, "Murmur3H1 folds a sign-extended byte with OR", "a value sign-extended by block() is combined with | : for bytes >= 0x80 the sign bits set every higher bit, which XOR folding (the reference algorithm) does not")
-			}
-		}
-		return true
-	})
-	// the tail table
-	var sw *ast.SwitchStmt
-	ast.Inspect(h1.Decl.Body, func(x ast.Node) bool {
-		if s, ok := x.(*ast.SwitchStmt); ok && s.Tag != nil && strings.Contains(exprStr(s.Tag), "& 15") {
-			sw = s
-		}
-		return true
-	})
-	if sw == nil {
-		r.Unresolved("Murmur3H1: the tail is not a switch on length & 15 (table form): cannot compare it with the reference table")
-		return
-	}
-	for _, cl := range sw.Body.List {
-		cc := cl.(*ast.CaseClause)
-		if len(cc.List) != 1 {
-			continue
-		}
-		k, ok := constInt(info, cc.List[0])
-		if !ok || len(cc.Body) == 0 {
-			continue
-		}
-		as, ok := cc.Body[0].(*ast.AssignStmt)
-		wantWord := "k1"
-		if k > 8 {
-			wantWord = "k2"
-		}
-		wantShift := int((k - 1) % 8 * 8)
-		okRow := false
-		got := ""
-		if ok && as.Tok == token.XOR_ASSIGN && len(as.Lhs) == 1 {
-			got = exprStr(as.Lhs[0]) + " ^= " + exprStr(as.Rhs[0])
-			rhs := ast.Unparen(as.Rhs[0])
-			shift := 0
-			if b, isB := rhs.(*ast.BinaryExpr); isB && b.Op == token.SHL {
-				if s, isC := constInt(info, b.Y); isC {
-					shift = int(s)
-				}
-				rhs = ast.Unparen(b.X)
-			}
-			if c, isCall := rhs.(*ast.CallExpr); isCall && isCallTo(info, c, "murmur.block") && len(c.Args) == 1 {
-				if ix, isIx := ast.Unparen(c.Args[0]).(*ast.IndexExpr); isIx {
-					if idx, isC := constInt(info, ix.Index); isC && idx == k-1 && shift == wantShift && exprStr(as.Lhs[0]) == wantWord {
-						okRow = true
-					}
-				}
-			}
-		}
-		// falls through to the next lower case (except case 1)
-		ft := k == 1
-		if k > 1 {
-			if br, isBr := cc.Body[len(cc.Body)-1].(*ast.BranchStmt); isBr && br.Tok == token.FALLTHROUGH {
-				ft = true
-			}
-		}
-		r.Check(okRow && ft, cc, fmt.Sprintf("Murmur3H1 tail case %d", k), fmt.Sprintf("%s ^= block(tail[%d]) << %d, falls through", wantWord, k-1, wantShift),
-			fmt.Sprintf("tail case %d is `%s` (fallthrough=%v); the reference is %s ^= block(tail[%d]) << %d followed by the lower cases", k, got, ft, wantWord, k-1, wantShift))
+		r.Check(why == "", fi.Decl, fmt.Sprintf("Murmur3H1 tail of %d bytes and finalisation", t), "term equals the reference (tail bytes sign-extended, XOR-folded at 8*i, mixed, length folded, fmix)", why)
 	}
 }
 
 func c09r2(p *Program, r *Report) {
+	fi := murmurFunc(p, "Murmur3H1")
+	if fi == nil {
+		r.Unresolved("murmur.Murmur3H1 not found")
+		return
+	}
+	mr := runMurmur(p, fi, 0)
+	if mr.err != "" {
+		r.Unresolved("Murmur3H1: %s", mr.err)
+		return
+	}
+	lp := mr.loop
+	zero := func(name string) bool { return lp.init[name] != nil && lp.init[name].String() == "0x0" }
+	ctrPre := lp.pre[mr.ctr].String()
+	r.Check(zero(mr.h1) && zero(mr.h2), fi.Decl, "Murmur3H1 starts from seed 0", "h1 = h2 = 0", "the hash state does not start from seed 0 (Cassandra's Murmur3Partitioner uses seed 0)")
+	wantCond := ctrPre + " < sdiv(L,0x10)"
+	r.Check(zero(mr.ctr) && lp.cond == wantCond && lp.post[mr.ctr].String() == mk("add", lp.pre[mr.ctr], tConst(1)).String(), fi.Decl, "Murmur3H1 block loop visits blocks 0..len/16-1", wantCond,
+		fmt.Sprintf("the block loop runs `%s` from %v stepping to `%s`; the reference processes every 16-byte block i = 0 .. len/16-1 once", lp.cond, lp.init[mr.ctr], lp.post[mr.ctr]))
+	K1 := tSym("murmur.getBlock.0(data+0x0," + ctrPre + ")")
+	K2 := tSym("murmur.getBlock.1(data+0x0," + ctrPre + ")")
+	H1, H2 := lp.pre[mr.h1], lp.pre[mr.h2]
+	w1 := mk("add", mk("mul", mk("add", mk("rotl", mk("xor", H1, mmMixK1(K1)), tConst(27)), H2), tConst(5)), tConst(0x52dce729))
+	w2 := mk("add", mk("mul", mk("add", mk("rotl", mk("xor", H2, mmMixK2(K2)), tConst(31)), w1), tConst(5)), tConst(0x38495ab5))
+	r.Check(lp.post[mr.h1].String() == w1.String(), fi.Decl, "Murmur3H1 block step for h1", "h1 = (rotl(h1 ^ mixK1(k1), 27) + h2)*5 + 0x52dce729",
+		fmt.Sprintf("one block turns h1 into `%s`; MurmurHash3 x64-128 has `%s`", shortTerm(lp.post[mr.h1]), shortTerm(w1)))
+	r.Check(lp.post[mr.h2].String() == w2.String(), fi.Decl, "Murmur3H1 block step for h2", "h2 = (rotl(h2 ^ mixK2(k2), 31) + h1')*5 + 0x38495ab5",
+		fmt.Sprintf("one block turns h2 into `%s`; MurmurHash3 x64-128 has `%s`", shortTerm(lp.post[mr.h2]), shortTerm(w2)))
+	// the declared constants (documentation of the algorithm's parameters; the terms above already fix their values)
 	scope := p.ByPath[murmurPath].Types.Scope()
-	for name, want := range map[string]uint64{"c1": 0x87c37b91114253d5, "c2": 0x4cf5ad432745937f, "fmix1": 0xff51afd7ed558ccd, "fmix2": 0xc4ceb9fe1a85ec53} {
+	for name, want := range map[string]uint64{"c1": mmC1, "c2": mmC2, "fmix1": mmFmix1, "fmix2": mmFmix2} {
 		c, ok := scope.Lookup(name).(*types.Const)
-		var got uint64
-		if ok {
-			if v, ok2 := constValInt(c); ok2 {
-				got = uint64(v)
-			}
-		}
-		r.Check(ok && got == want, nil, "murmur constant "+name, fmt.Sprintf("0x%x", want), fmt.Sprintf("murmur.%s = 0x%x, MurmurHash3 x64-128 uses 0x%x", name, got, want))
-	}
-	h1 := murmurFunc(p, "Murmur3H1")
-	fm := murmurFunc(p, "fmix")
-	if h1 == nil || fm == nil {
-		r.Unresolved("Murmur3H1 / fmix not found")
-		return
-	}
-	info := h1.Pkg.TypesInfo
-	// sequence of (word, operation) in the block loop
-	var loop *ast.ForStmt
-	ast.Inspect(h1.Decl.Body, func(x ast.Node) bool {
-		if f, ok := x.(*ast.ForStmt); ok && loop == nil {
-			loop = f
-		}
-		return true
-	})
-	if loop == nil {
-		r.Unresolved("Murmur3H1: block loop not found")
-		return
-	}
-	var seq []string
-	for _, st := range loop.Body.List {
-		as, ok := st.(*ast.AssignStmt)
-		if !ok || len(as.Lhs) != 1 {
-			continue
-		}
-		l := exprStr(as.Lhs[0])
-		rhs := ast.Unparen(as.Rhs[0])
-		switch as.Tok {
-		case token.MUL_ASSIGN, token.XOR_ASSIGN, token.ADD_ASSIGN:
-			seq = append(seq, l+as.Tok.String()+exprStr(rhs))
-		case token.ASSIGN:
-			if c, ok := rhs.(*ast.CallExpr); ok && isCallTo(info, c, "murmur.rotl") && len(c.Args) == 2 {
-				k, _ := constInt(info, c.Args[1])
-				seq = append(seq, fmt.Sprintf("%s=rotl(%s,%d)", l, exprStr(c.Args[0]), k))
-			} else if b, ok := rhs.(*ast.BinaryExpr); ok && b.Op == token.ADD {
-				k, _ := constUint(info, b.Y)
-				seq = append(seq, fmt.Sprintf("%s=%s+0x%x", l, exprStr(b.X), k))
-			}
-		}
-	}
-	want := []string{"k1*=c1", "k1=rotl(k1,31)", "k1*=c2", "h1^=k1", "h1=rotl(h1,27)", "h1+=h2", "h1=h1 * 5+0x52dce729",
-		"k2*=c2", "k2=rotl(k2,33)", "k2*=c1", "h2^=k2", "h2=rotl(h2,31)", "h2+=h1", "h2=h2 * 5+0x38495ab5"}
-	for i, w := range want {
-		got := ""
-		if i < len(seq) {
-			got = seq[i]
-		}
-		r.Check(got == w, loop, fmt.Sprintf("Murmur3H1 block step %d: %s", i+1, w), got, fmt.Sprintf("block mixing step %d is `%s`, MurmurHash3 x64-128 has `%s`", i+1, got, w))
-	}
-	// fmix: three xor-shifts by 33 with two multiplications
-	finfo := fm.Pkg.TypesInfo
-	var fseq []string
-	for _, st := range fm.Decl.Body.List {
-		as, ok := st.(*ast.AssignStmt)
 		if !ok {
-			continue
+			continue // a refactoring may inline or rename them; the term comparison does not depend on the names
 		}
-		switch as.Tok {
-		case token.XOR_ASSIGN:
-			sh := int64(-1)
-			ast.Inspect(as.Rhs[0], func(m ast.Node) bool {
-				if b, ok := m.(*ast.BinaryExpr); ok && b.Op == token.SHR {
-					sh, _ = constInt(finfo, b.Y)
-					// logical shift: operand converted to uint64
-					if !strings.HasPrefix(exprStr(b.X), "uint64(") {
-						sh = -2
-					}
-				}
-				return true
-			})
-			fseq = append(fseq, fmt.Sprintf("^=>>%d", sh))
-		case token.MUL_ASSIGN:
-			fseq = append(fseq, "*="+exprStr(as.Rhs[0]))
+		var got uint64
+		if v, ok2 := constValInt(c); ok2 {
+			got = uint64(v)
 		}
-	}
-	wantF := "^=>>33 *=fmix1 ^=>>33 *=fmix2 ^=>>33"
-	r.Check(strings.Join(fseq, " ") == wantF, fm.Decl, "murmur.fmix finaliser", wantF, "fmix is `"+strings.Join(fseq, " ")+"`, the reference finaliser is `"+wantF+"` with logical (unsigned) shifts")
-	// rotl uses a logical right shift
-	if rt := murmurFunc(p, "rotl"); rt != nil {
-		s := exprStr(rt.Decl.Body.List[len(rt.Decl.Body.List)-1].(*ast.ReturnStmt).Results[0])
-		r.Check(strings.Contains(s, "x << r") && strings.Contains(s, "uint64(x) >> (64 - r)"), rt.Decl, "murmur.rotl is a 64-bit rotate with a logical right shift", s, "rotl is not (x<<r) | (uint64(x)>>(64-r)): "+s)
+		r.Check(got == want, nil, "murmur constant "+name, fmt.Sprintf("0x%x", want), fmt.Sprintf("murmur.%s = 0x%x, MurmurHash3 x64-128 uses 0x%x", name, got, want))
 	}
 }
 
@@ -311,116 +282,187 @@ func c09r4(p *Program, r *Report) {
 		return
 	}
 	info := fi.Pkg.TypesInfo
-	// single column: bare encoding under len(indexes) == 1
-	okSingle := false
-	ast.Inspect(fi.Decl.Body, func(x ast.Node) bool {
-		ifs, ok := x.(*ast.IfStmt)
-		if !ok {
-			return true
+	tr := newReadTracer(p)
+	tr.prims = map[string]string{"Marshal": "marshal", "bytes.(*Buffer).Write": "write", "bytes.(*Buffer).WriteByte": "writebyte", "bytes.(*Buffer).WriteString": "writestring",
+		"binary.(bigEndian).PutUint16": "put16be", "binary.(littleEndian).PutUint16": "put16le", "binary.(bigEndian).PutUint32": "put32be", "binary.(littleEndian).PutUint32": "put32le",
+		"bytes.(*Buffer).Reset": "reset", "sync.(*Pool).Get": "pool", "sync.(*Pool).Put": "pool", "bytes.(*Buffer).Bytes": "bytes", "bytes.(*Buffer).Truncate": "reset"}
+	// helpers the function was split into belong to its layout
+	var addInline func(f *FuncInfo, depth int)
+	addInline = func(f *FuncInfo, depth int) {
+		if depth > 3 {
+			return
 		}
-		b, ok := ast.Unparen(ifs.Cond).(*ast.BinaryExpr)
-		if !ok || b.Op != token.EQL || !strings.HasSuffix(exprStr(b.X), ".indexes)") || !strings.HasPrefix(exprStr(b.X), "len(") {
-			return true
+		for _, c := range p.privateCallees(f) {
+			if !tr.inline[c.Name] {
+				tr.inline[c.Name] = true
+				addInline(c, depth+1)
+			}
 		}
-		if k, isC := constInt(info, b.Y); !isC || k != 1 {
-			return true
-		}
-		var marshalled types.Object
-		for _, st := range ifs.Body.List {
-			switch s := st.(type) {
-			case *ast.AssignStmt:
-				if len(s.Rhs) == 1 && len(s.Lhs) == 2 {
-					if c, ok := ast.Unparen(s.Rhs[0]).(*ast.CallExpr); ok && isCallTo(info, c, "Marshal") && len(c.Args) == 2 &&
-						exprStr(c.Args[0]) == "routingKeyInfo.types[0]" && exprStr(c.Args[1]) == "values[routingKeyInfo.indexes[0]]" {
-						marshalled = objOf(info, s.Lhs[0])
-					}
-				}
-			case *ast.ReturnStmt:
-				if len(s.Results) == 2 && isNil(info, s.Results[1]) && marshalled != nil && isIdentOf(info, s.Results[0], marshalled) {
-					okSingle = true
+	}
+	addInline(fi, 0)
+	tr.noAuto = func(string) bool { return true }
+	var single, composite []*pathState
+	pooled := ""
+	for _, st := range tr.run(fi, 4) {
+		for _, it := range flat(st.trace) {
+			walk := []TraceItem{it}
+			if it.Prim == "loop" {
+				walk = it.Body
+			}
+			for _, w := range walk {
+				if w.Prim == "reset" || w.Prim == "pool" {
+					pooled = p.Pos(w.Call) + ": " + exprStr(w.Call)
 				}
 			}
 		}
-		return true
-	})
-	r.Check(okSingle, fi.Decl, "createRoutingKey single-column key is the bare encoding", "returns Marshal(...) directly under len(indexes) == 1", "the single-column routing key is not the unframed encoded value")
-	// composite: per-iteration sequence
-	var loop *ast.RangeStmt
-	ast.Inspect(fi.Decl.Body, func(x ast.Node) bool {
-		if rs, ok := x.(*ast.RangeStmt); ok && loop == nil {
-			loop = rs
+		if st.done != "return" || st.retStmt == nil || len(st.retStmt.Results) != 2 || !isNil(info, st.retStmt.Results[1]) || isNil(info, st.retStmt.Results[0]) {
+			continue // error / nil-key paths
 		}
-		return true
-	})
-	if loop == nil {
-		r.Unresolved("createRoutingKey: no component loop")
+		isSingle, known := false, false
+		for k, v := range st.assume {
+			if strings.HasPrefix(k, "len(") && strings.HasSuffix(k, ".indexes) == 1") {
+				isSingle, known = v, true
+			}
+		}
+		if !known {
+			continue
+		}
+		if isSingle {
+			single = append(single, st)
+		} else {
+			composite = append(composite, st)
+		}
+	}
+	if len(tr.unsup) > 0 {
+		r.Unresolved("createRoutingKey: %s", strings.Join(tr.unsup, "; "))
 		return
 	}
-	r.Check(strings.HasSuffix(exprStr(loop.X), ".indexes"), loop, "createRoutingKey iterates the components in partition-key order", "range routingKeyInfo.indexes", "the composite key is not built by walking the partition-key index list in order")
-	var seq []string
-	var bufName, encName string
-	lenBufLen := int64(-1)
-	for _, st := range loop.Body.List {
-		switch s := st.(type) {
-		case *ast.AssignStmt:
-			if len(s.Rhs) == 1 {
-				if c, ok := ast.Unparen(s.Rhs[0]).(*ast.CallExpr); ok && isCallTo(info, c, "Marshal") && len(c.Args) == 2 {
-					encName = exprStr(s.Lhs[0])
-					key := exprStr(loop.Key)
-					tOK := exprStr(c.Args[0]) == "routingKeyInfo.types["+key+"]"
-					vOK := exprStr(c.Args[1]) == "values[routingKeyInfo.indexes["+key+"]]"
-					r.Check(tOK && vOK, c, "createRoutingKey marshals component i with types[i] and values[indexes[i]]", exprStr(c.Args[0])+", "+exprStr(c.Args[1]), "a component is marshalled with a type or value that does not belong to it: "+exprStr(c.Args[0])+", "+exprStr(c.Args[1]))
-				}
-			}
-		case *ast.ExprStmt:
-			c, ok := s.X.(*ast.CallExpr)
-			if !ok {
-				continue
-			}
-			name := calleeName(info, c)
-			switch name {
-			case "binary.(bigEndian).PutUint16":
-				seq = append(seq, "len16be("+exprStr(c.Args[1])+")->"+strings.TrimSuffix(exprStr(c.Args[0]), "[:]"))
-				lenBufLen = staticLen(info, fi, c.Args[0])
-			case "bytes.(*Buffer).Write":
-				bufName = exprStr(recvExpr(c))
-				seq = append(seq, "write("+strings.TrimSuffix(exprStr(c.Args[0]), "[:]")+")")
-			case "bytes.(*Buffer).WriteByte":
-				v, _ := constInt(info, c.Args[0])
-				seq = append(seq, fmt.Sprintf("writebyte(%d)", v))
-			}
+	retIs := func(st *pathState, dst string) bool {
+		res := ast.Unparen(st.retStmt.Results[0])
+		return dst != "" && exprStr(res) == dst
+	}
+	// single column: the bare encoding of values[indexes[0]] with types[0]
+	okSingle := len(single) > 0
+	for _, st := range single {
+		ft := flat(st.trace)
+		if len(ft) != 1 || ft[0].Prim != "marshal" || len(ft[0].Args) != 2 || ft[0].Args[0] != "routingKeyInfo.types[0]" || ft[0].Args[1] != "values[routingKeyInfo.indexes[0]]" || !retIs(st, ft[0].Dst) {
+			okSingle = false
 		}
 	}
-	want := []string{"len16be(uint16(len(" + encName + ")))->lenBuf", "write(lenBuf)", "write(" + encName + ")", "writebyte(0)"}
-	r.Check(strings.Join(seq, " ") == strings.Join(want, " "), loop, "createRoutingKey component framing", strings.Join(seq, " "),
-		"a component is framed as `"+strings.Join(seq, " ")+"`; Cassandra's composite key is [2-byte big-endian length][value][0x00] per component: `"+strings.Join(want, " ")+"`")
-	r.Check(lenBufLen == 2, loop, "createRoutingKey length prefix buffer is exactly 2 bytes", fmt.Sprint(lenBufLen), fmt.Sprintf("the length prefix written per component is %d bytes long, Cassandra's composite format has a 2-byte length", lenBufLen))
-	// fresh storage
-	okFresh := false
-	noPut := true
+	r.Check(okSingle, fi.Decl, "createRoutingKey single-column key is the bare encoding", "returns Marshal(types[0], values[indexes[0]]) directly under len(indexes) == 1", "the single-column routing key is not the unframed encoded value")
+	if len(composite) == 0 {
+		r.Unresolved("createRoutingKey: no successful composite-key path")
+		return
+	}
+	okOrder, okPair, okFrame, okLen, okFresh := true, true, true, true, true
+	gotPair, gotFrame, gotLen := "", "", int64(-1)
+	for _, st := range composite {
+		ft := flat(st.trace)
+		var loop *TraceItem
+		var after []TraceItem
+		for i := range ft {
+			if ft[i].Prim == "loop" && loop == nil {
+				loop = &ft[i]
+				after = ft[i+1:]
+			} else if loop == nil && (strings.HasPrefix(ft[i].Prim, "write") || strings.HasPrefix(ft[i].Prim, "put") || ft[i].Prim == "marshal") {
+				okFrame = false // something is written before the components
+				gotFrame = traceStr(ft)
+			}
+		}
+		if loop == nil {
+			okOrder = false
+			continue
+		}
+		key := ""
+		if strings.HasPrefix(loop.Arg, "range routingKeyInfo.indexes key ") {
+			key = strings.TrimPrefix(loop.Arg, "range routingKeyInfo.indexes key ")
+		}
+		if key == "" {
+			okOrder = false
+		}
+		body := loop.Body
+		var seq []string
+		for _, it := range body {
+			seq = append(seq, it.Prim)
+		}
+		gotFrame = strings.Join(seq, " ")
+		if strings.Join(seq, " ") != "marshal put16be write write writebyte" {
+			okFrame = false
+			continue
+		}
+		m, put, w1, w2, wb := body[0], body[1], body[2], body[3], body[4]
+		gotPair = strings.Join(m.Args, ", ")
+		if len(m.Args) != 2 || m.Args[0] != "routingKeyInfo.types["+key+"]" || m.Args[1] != "values[routingKeyInfo.indexes["+key+"]]" {
+			okPair = false
+		}
+		lb := strings.TrimSuffix(put.Args[0], "[:]")
+		if put.Args[1] != "uint16(len("+m.Dst+"))" || strings.TrimSuffix(w1.Args[0], "[:]") != lb || w2.Args[0] != m.Dst || !wb.HasVal || wb.Val != 0 || w1.Recv != w2.Recv || w2.Recv != wb.Recv {
+			okFrame = false
+			gotFrame = fmt.Sprintf("put16be(%s) write(%s) write(%s) writebyte(%s)", strings.Join(put.Args, ","), w1.Args[0], w2.Args[0], wb.Arg)
+		}
+		gotLen = staticLen(put.Fn.Pkg.TypesInfo, put.Fn, put.Call.Args[0])
+		if gotLen != 2 {
+			okLen = false
+		}
+		// the returned bytes are those of the buffer written, which this call created
+		bufRecv := w1.Recv
+		fresh := false
+		if len(after) == 1 && after[0].Prim == "bytes" && after[0].Recv == bufRecv && (retIs(st, after[0].Dst) || posWithin(st.retStmt, after[0].Pos)) {
+			if id := identNamed(fi, bufRecv); id != nil {
+				if d := localDef(info, fi, id); d != nil {
+					switch v := ast.Unparen(d).(type) {
+					case *ast.CallExpr:
+						n := calleeName(info, v)
+						fresh = n == "bytes.NewBuffer" || n == "builtin.new" || n == "bytes.NewBufferString"
+					case *ast.UnaryExpr:
+						_, fresh = ast.Unparen(v.X).(*ast.CompositeLit)
+					case *ast.CompositeLit:
+						fresh = true
+					}
+				} else if declaredZero(info, fi, id) {
+					fresh = true
+				}
+			}
+		}
+		if !fresh {
+			okFresh = false
+		}
+	}
+	r.Check(okOrder, fi.Decl, "createRoutingKey iterates the components in partition-key order", "range routingKeyInfo.indexes", "the composite key is not built by walking the partition-key index list in order")
+	r.Check(okPair, fi.Decl, "createRoutingKey marshals component i with types[i] and values[indexes[i]]", gotPair, "a component is marshalled with a type or value that does not belong to it: "+gotPair)
+	r.Check(okFrame, fi.Decl, "createRoutingKey component framing", gotFrame,
+		"a component is framed as `"+gotFrame+"`; Cassandra's composite key is [2-byte big-endian length][value][0x00] per component")
+	r.Check(okLen, fi.Decl, "createRoutingKey length prefix buffer is exactly 2 bytes", fmt.Sprint(gotLen), fmt.Sprintf("the length prefix written per component is %d bytes long, Cassandra's composite format has a 2-byte length", gotLen))
+	r.Check(okFresh && pooled == "", fi.Decl, "createRoutingKey returns storage allocated by this call", "buffer created here, never pooled or reset", "the routing key is returned from a buffer that is pooled, reset or not created by this call"+ifs(pooled != "", " ("+pooled+")", "")+": the next routing key overwrites it while the first is still being hashed")
+}
+
+// identNamed finds a use of the local variable called name in fi.
+func identNamed(fi *FuncInfo, name string) *ast.Ident {
+	var out *ast.Ident
 	ast.Inspect(fi.Decl.Body, func(x ast.Node) bool {
-		switch s := x.(type) {
-		case *ast.AssignStmt:
-			if len(s.Lhs) == 1 && exprStr(s.Lhs[0]) == bufName && len(s.Rhs) == 1 {
-				if c, ok := ast.Unparen(s.Rhs[0]).(*ast.CallExpr); ok && (calleeName(info, c) == "bytes.NewBuffer" || calleeName(info, c) == "builtin.new") {
-					okFresh = true
+		if id, ok := x.(*ast.Ident); ok && id.Name == name && out == nil && fi.Pkg.TypesInfo.Uses[id] != nil {
+			out = id
+		}
+		return true
+	})
+	return out
+}
+
+// declaredZero: id is a local declared with `var x T` (zero value) and never assigned as a whole.
+func declaredZero(info *types.Info, fi *FuncInfo, id *ast.Ident) bool {
+	obj := info.Uses[id]
+	found := false
+	ast.Inspect(fi.Decl.Body, func(x ast.Node) bool {
+		if vs, ok := x.(*ast.ValueSpec); ok && len(vs.Values) == 0 {
+			for _, n := range vs.Names {
+				if info.Defs[n] == obj {
+					found = true
 				}
-				if _, ok := ast.Unparen(s.Rhs[0]).(*ast.UnaryExpr); ok {
-					okFresh = true
-				}
-			}
-		case *ast.CallExpr:
-			n := calleeName(info, s)
-			if strings.HasPrefix(n, "sync.(*Pool).") {
-				noPut = false
-			}
-			if n == "bytes.(*Buffer).Reset" {
-				noPut = false
 			}
 		}
 		return true
 	})
-	r.Check(okFresh && noPut, fi.Decl, "createRoutingKey returns storage allocated by this call", "buffer created here, never pooled or reset", "the routing key is returned from a buffer that is pooled, reset or not created by this call: the next routing key overwrites it while the first is still being hashed")
+	return found && singleAssigned(info, fi.Decl.Body, obj)
 }
 
 func c09r5(p *Program, r *Report) {
@@ -455,31 +497,82 @@ func c09r5(p *Program, r *Report) {
 	}
 	if fi := r.NeedFunc("(randomPartitioner).Hash"); fi != nil {
 		info := fi.Pkg.TypesInfo
-		var steps []string
-		var guard string
-		ast.Inspect(fi.Decl.Body, func(x ast.Node) bool {
-			switch n := x.(type) {
-			case *ast.IfStmt:
-				guard = exprStr(n.Cond)
-			case *ast.CallExpr:
-				switch calleeName(info, n) {
-				case "md5.Sum":
-					steps = append(steps, "md5("+exprStr(n.Args[0])+")")
-				case "big.(*Int).SetBytes":
-					steps = append(steps, "setbytes("+exprStr(n.Args[0])+")")
-				case "big.(*Int).Sub":
-					steps = append(steps, "sub("+exprStr(n.Args[0])+","+exprStr(n.Args[1])+")")
-				case "big.(*Int).Abs":
-					steps = append(steps, "abs("+exprStr(n.Args[0])+")")
-				case "big.(*Int).Neg", "big.(*Int).Add", "big.(*Int).Mod", "big.(*Int).And", "big.(*Int).Rsh", "big.(*Int).Lsh":
-					steps = append(steps, "other:"+calleeName(info, n))
+		tr := newReadTracer(p)
+		tr.prims = map[string]string{"md5.Sum": "md5", "big.(*Int).SetBytes": "setbytes", "big.(*Int).Sub": "sub", "big.(*Int).Abs": "abs"}
+		for _, o := range []string{"Neg", "Add", "Mod", "And", "Rsh", "Lsh", "Or", "Xor", "Not", "Mul", "SetInt64", "SetUint64", "SetString"} {
+			tr.prims["big.(*Int)."+o] = "other:" + o
+		}
+		tr.noAuto = func(string) bool { return true }
+		for _, c := range p.privateCallees(fi) {
+			tr.inline[c.Name] = true
+		}
+		nOK, bad := 0, ""
+		for _, st := range tr.run(fi, 4) {
+			ft := flat(st.trace)
+			var seq []string
+			for _, it := range ft {
+				seq = append(seq, it.Prim)
+			}
+			got := strings.Join(seq, " ")
+			if len(ft) < 2 || ft[0].Prim != "md5" || ft[1].Prim != "setbytes" || len(ft[0].Args) != 1 || ft[0].Args[0] != "partitionKey" || strings.TrimSuffix(ft[1].Args[0], "[:]") != ft[0].Dst || ft[0].Dst == "" {
+				bad = "the token is not built from the 16 bytes of md5(partitionKey) read big-endian (`" + traceStr(ft) + "`)"
+				continue
+			}
+			sum := ft[0].Dst
+			val := map[string]bool{ft[1].Dst: true, ft[1].Recv: true}
+			// is the sign bit of the digest set on this path?
+			neg, known := false, false
+			for k, v := range st.assume {
+				switch k {
+				case "127 < " + sum + "[0]", "bit:" + sum + "[0]:0x80", "int8(" + sum + "[0]) < 0":
+					neg, known = v, true
+				case sum + "[0] < 128", "0 < int8(" + sum + "[0])":
+					neg, known = !v, k == sum+"[0] < 128"
 				}
 			}
-			return true
-		})
-		got := strings.Join(steps, " ") + " if " + guard
-		want := "md5(partitionKey) setbytes(sum[:]) sub(val,maxHashInt) abs(val) if sum[0] > 127"
-		r.Check(got == want, fi.Decl, "randomPartitioner.Hash = |signed 128-bit MD5|", got, "the random partitioner computes `"+got+"`; Cassandra uses the absolute value of the MD5 digest read as a signed 128-bit big-endian integer: `"+want+"`")
+			if !known {
+				r.Unresolved("randomPartitioner.Hash: the test of the digest's sign bit was not recognised on path [%s]", assumeStr(st))
+				return
+			}
+			want := "md5 setbytes"
+			if neg {
+				want = "md5 setbytes sub abs"
+			}
+			if got != want {
+				bad = fmt.Sprintf("with the digest's top bit %s the value is computed by `%s`", ifs(neg, "set", "clear"), got)
+				continue
+			}
+			if neg {
+				sub, abs := ft[2], ft[3]
+				if !val[sub.Recv] || len(sub.Args) != 2 || !val[sub.Args[0]] || sub.Args[1] != "maxHashInt" || !val[abs.Recv] || len(abs.Args) != 1 || !val[abs.Args[0]] {
+					bad = "the negative case is not |val - 2^128|: `" + traceStr(ft) + "`"
+					continue
+				}
+			}
+			// the returned token is that value
+			if st.retStmt == nil || len(st.retStmt.Results) != 1 {
+				bad = "no single-value return"
+				continue
+			}
+			ret := p.canonText(fi, st.retStmt.Results[0])
+			okRet := false
+			for v := range val {
+				if v != "" && mentions(ret, v) {
+					okRet = true
+				}
+			}
+			if !okRet && !strings.Contains(ret, "SetBytes(") {
+				bad = "the value returned (" + exprStr(st.retStmt.Results[0]) + ") is not the integer built from the digest"
+				continue
+			}
+			nOK++
+		}
+		if len(tr.unsup) > 0 {
+			r.Unresolved("randomPartitioner.Hash: %s", strings.Join(tr.unsup, "; "))
+			return
+		}
+		r.Check(bad == "" && nOK == 2, fi.Decl, "randomPartitioner.Hash = |signed 128-bit MD5|", "digest read big-endian; when its top bit is set: |val - 2^128|",
+			"the random partitioner does not compute the absolute value of the MD5 digest read as a signed 128-bit big-endian integer: "+ifs(bad != "", bad, fmt.Sprintf("%d of the 2 sign cases found", nOK)))
 		ok := false
 		for _, f := range fi.Pkg.Syntax {
 			ast.Inspect(f, func(x ast.Node) bool {
@@ -692,13 +785,24 @@ func c09r6(p *Program, r *Report) {
 // overflows); a shape that is none of these is reported as unresolved, not as a violation.
 func c09Less(p *Program, r *Report, fi *FuncInfo, construct, kind, badWhy string) {
 	info := fi.Pkg.TypesInfo
-	if len(fi.Decl.Body.List) != 1 {
-		r.Unresolved("%s: body is not a single return", fi.Name)
-		return
+	// local definitions followed by one return
+	list := fi.Decl.Body.List
+	for _, st := range list[:len(list)-1] {
+		as, isAs := st.(*ast.AssignStmt)
+		if !isAs || as.Tok != token.DEFINE {
+			r.Unresolved("%s: body is not a sequence of local definitions and one return", fi.Name)
+			return
+		}
+		for _, rhs := range as.Rhs {
+			if !pureExpr(info, rhs) {
+				r.Unresolved("%s: local definition %s is not a pure expression", fi.Name, exprStr(rhs))
+				return
+			}
+		}
 	}
-	rs, ok := fi.Decl.Body.List[0].(*ast.ReturnStmt)
+	rs, ok := list[len(list)-1].(*ast.ReturnStmt)
 	if !ok || len(rs.Results) != 1 {
-		r.Unresolved("%s: body is not a single return", fi.Name)
+		r.Unresolved("%s: body does not end in a single-value return", fi.Name)
 		return
 	}
 	verdict, why := orderingOf(p, info, fi, rs.Results[0], kind, 0)
@@ -755,6 +859,18 @@ func orderingOf(p *Program, info *types.Info, fi *FuncInfo, e ast.Expr, kind str
 		if tx == nil || ty == nil {
 			return "?", "untyped operands"
 		}
+		// the operands must be the two tokens themselves (possibly through local copies / conversions)
+		big := be.Y
+		if be.Op == token.GTR {
+			big = be.X
+		}
+		other := ""
+		if fi.Decl.Type.Params != nil && len(fi.Decl.Type.Params.List) == 1 && len(fi.Decl.Type.Params.List[0].Names) == 1 {
+			other = fi.Decl.Type.Params.List[0].Names[0].Name
+		}
+		if other != "" && !mentions(p.canonText(fi, big), other) {
+			return "?", "the larger side " + exprStr(big) + " is not derived from the other token"
+		}
 		bx, okx := tx.Underlying().(*types.Basic)
 		by, oky := ty.Underlying().(*types.Basic)
 		if !okx || !oky {
@@ -769,7 +885,7 @@ func orderingOf(p *Program, info *types.Info, fi *FuncInfo, e ast.Expr, kind str
 		if be.Op == token.GTR {
 			small = be.Y
 		}
-		if recv != "" && !strings.Contains(exprStr(small), recv) {
+		if recv != "" && !mentions(p.canonText(fi, small), recv) {
 			return "bad", "Less(a, b) is computed as b < a (" + exprStr(e) + ")"
 		}
 		switch kind {
